@@ -157,6 +157,33 @@ Fixpoint ans_encode_all (c : cfg) (l : list (emodel * Z)) (a : ans) : option ans
                    end
   end.
 
+(* batch forms (stream/mod.rs:592-700, stack.rs:719-790): per-symbol loops that stop at the
+   first error and keep what was encoded; result = (coder, index of the failing item if any) *)
+Fixpoint ans_encode_batch_from (c : cfg) (i : nat) (l : list (emodel * Z)) (a : ans) : ans * option nat :=
+  match l with
+  | [] => (a, None)
+  | (m, s) :: r => match ans_encode_sym c m s a with
+                   | Some a' => ans_encode_batch_from c (S i) r a'
+                   | None => (a, Some i)
+                   end
+  end.
+Definition ans_encode_batch c l a := ans_encode_batch_from c 0 l a.
+(* encode_symbols_reverse / encode_iid_symbols_reverse: the same loop over the reversed iterator *)
+Definition ans_encode_batch_reverse c l a := ans_encode_batch c (rev l) a.
+
+(* try_encode_symbols: items are Result<(symbol, model), E>; [None] models an Err item *)
+Inductive try_result := TryOk | TryImpossible (i : nat) | TryInvalidModel (i : nat).
+Fixpoint ans_try_encode_from (c : cfg) (i : nat) (l : list (option (emodel * Z))) (a : ans) : ans * try_result :=
+  match l with
+  | [] => (a, TryOk)
+  | None :: _ => (a, TryInvalidModel i)
+  | Some (m, s) :: r => match ans_encode_sym c m s a with
+                        | Some a' => ans_try_encode_from c (S i) r a'
+                        | None => (a, TryImpossible i)
+                        end
+  end.
+Definition ans_try_encode c l a := ans_try_encode_from c 0 l a.
+
 Inductive aop := AEnc (m : emodel) (s : Z) | ADec (m : emodel) | AReload.
 Inductive aout := ONone | OErr | OSym (s : Z).
 
